@@ -44,6 +44,8 @@ func checkC11(w *World, tier string) *Report {
 	addR105(w, r, "R10.5") // a change journaled for a registered key reaches the record on every path (shared with C10/C13)
 	addKeyTreeQueryPurityRule(w, r, "R11.9")
 	addFullPathLookupRule(w, r, "R11.10")
+	addIndexBytesStayInsideRule(w, r, "R11.11")
+	r.Explanation += " R11.3 also requires (seventh batch) that the node AddChild returns was read from, or stored into, the per-parent slot table under the child's (slot, offset) on that path — a return taken from the by-name table alone accepts a registration that the slot look-up cannot find. R11.11 the registered index bytes (StorageKey.data, the registering caller's slice) are read only as the operand of a string conversion or len: answers of the tree are built from the immutable by-name keys and never alias caller memory."
 	r.Explanation += " R11.9 every method of StorageKey, StateChanges and StorageChanges other than the reviewed mutators stores nothing outside its own locals (no cached child list or memo that registrations would have to keep in step); R11.10 in FindKeyIndices the not-found side of every map look-up leads to `return nil` without a further look-up: a name path answers only when the whole path is registered, as the look-up by slot does."
 	return r
 }
@@ -375,6 +377,27 @@ func addIndexReturnRule(w *World, r *Report, rule string) {
 		last := path[len(path)-1]
 		ret := last.Instrs[len(last.Instrs)-1].(*ssa.Return)
 		rv := resolvePhi(ret.Results[0], path)
+		// R11.3b: the node handed back is the node that stands in the per-parent slot table under the child's
+		// (slot, offset) on this path — read from it, or stored into it on the way. Only the returned node goes
+		// on to the flat index (saveKey -> addKey), so a node returned from the by-name table alone (an early
+		// "already registered under this name" return) leaves the child's own (slot, offset) without a record
+		if k, isConst := rv.(*ssa.Const); !(isConst && k.Value == nil) {
+			inSlotTable := false
+			if lk := mapReadOf(rv); lk != nil && derivesFromSlotTable(lk.X, fn) {
+				inSlotTable = true
+			}
+			for _, b := range path {
+				for _, ins := range b.Instrs {
+					if mu, isMu := ins.(*ssa.MapUpdate); isMu && derivesFromSlotTable(mu.Map, fn) && resolvePhi(mu.Value, path) == rv {
+						inSlotTable = true
+					}
+				}
+			}
+			if !inSlotTable {
+				k := fmt.Sprintf("vm.(*StorageKey).AddChild/path:return(%s)-not-from-slot-table", valueKind(rv))
+				seen[k] = viol{k, "a path returns " + describe(rv) + " (" + w.pos(ret.Pos()) + ") without having read it from, or stored it into, the per-parent slot table under the child's (slot, offset): the registration is accepted but look-ups by slot find no record for it", w.pos(ret.Pos())}
+			}
+		}
 		for _, b := range path {
 			for _, ins := range b.Instrs {
 				mu, isMu := ins.(*ssa.MapUpdate)
@@ -407,6 +430,42 @@ func addIndexReturnRule(w *World, r *Report, rule string) {
 	}
 	r.holds(rule, "vm.(*StorageKey).AddChild/paths", w.pos(fn.Pos()), fmt.Sprintf("%d paths examined, %d with a by-name/returned mismatch", npaths, len(ks)))
 	r.need(rule, 1)
+}
+
+// derivesFromSlotTable: m is the receiver's `children` table or an inner map read from it.
+func derivesFromSlotTable(m ssa.Value, fn *ssa.Function) bool {
+	for i := 0; i < 4; i++ {
+		if lk := mapReadOf(m); lk != nil {
+			m = lk.X
+			continue
+		}
+		if ph, ok := m.(*ssa.Phi); ok && len(ph.Edges) > 0 {
+			// `if m[k] == nil { m[k] = make(…) }` followed by a re-read never produces a phi of maps here, but a
+			// hoisted inner map does: every edge must derive from the table
+			for _, e := range ph.Edges {
+				if !derivesFromSlotTable(e, fn) {
+					return false
+				}
+			}
+			return true
+		}
+		break
+	}
+	if mk, ok := m.(*ssa.MakeMap); ok {
+		// a fresh inner map counts when it is stored into the table
+		for _, ref := range *mk.Referrers() {
+			if mu, ok := ref.(*ssa.MapUpdate); ok && mu.Value == ssa.Value(mk) && derivesFromSlotTable(mu.Map, fn) {
+				return true
+			}
+		}
+		return false
+	}
+	ld, ok := m.(*ssa.UnOp)
+	if !ok || ld.Op != token.MUL {
+		return false
+	}
+	fa, ok := ld.X.(*ssa.FieldAddr)
+	return ok && fieldID(fa) == "P0.StorageKey.children" && fa.X == ssa.Value(fn.Params[0])
 }
 
 func valueKind(v ssa.Value) string {
